@@ -415,12 +415,12 @@ Proof.
   rewrite E1, E2, Hd. reflexivity.
 Qed.
 
-Definition digit_token (d : bytes) : Prop :=
-  nonempty_digits d = true /\ (digits_val d < two63)%N.
+(* a non-empty digit run, of any length (the numbers are parsed with math/big) *)
+Definition digit_token (d : bytes) : Prop := nonempty_digits d = true.
 
 Lemma elem_of_digits d : digit_token d -> elem_of d = numN (digits_val d).
 Proof.
-  intros [Hd Hv]. unfold elem_of. rewrite (normalize_digits d Hd).
+  intros Hd. unfold elem_of. rewrite (normalize_digits d Hd).
   rewrite (big_of_digits d Hd). reflexivity.
 Qed.
 
@@ -433,7 +433,7 @@ Qed.
 
 Lemma Forall_digit_token_nonempty ds :
   Forall digit_token ds -> Forall (fun x => nonempty_digits x = true) ds.
-Proof. apply Forall_impl. intros d [H _]. exact H. Qed.
+Proof. apply Forall_impl. intros d H. exact H. Qed.
 
 Lemma valid_of_digit t : existsb is_digit t = true -> valid t = true.
 Proof. intros H. unfold valid. rewrite H. reflexivity. Qed.
@@ -442,7 +442,7 @@ Lemma valid_join ds sfx :
   ds <> [] -> Forall digit_token ds -> valid (join $"." ds ++ sfx) = true.
 Proof.
   intros Ne HF. destruct ds as [|d ds]; [contradiction|].
-  inversion HF as [|? ? [Hd _] _]; subst.
+  inversion HF as [|? ? Hd _]; subst. red in Hd.
   destruct d as [|c r]; [discriminate|].
   simpl in Hd. apply andb_true_iff in Hd. destruct Hd as [Hc _].
   apply valid_of_digit.
@@ -453,7 +453,7 @@ Lemma join_nonempty ds sfx :
   ds <> [] -> Forall digit_token ds -> join $"." ds ++ sfx <> [].
 Proof.
   intros Ne HF. destruct ds as [|d ds]; [contradiction|].
-  inversion HF as [|? ? [Hd _] _]; subst.
+  inversion HF as [|? ? Hd _]; subst. red in Hd.
   destruct d as [|c r]; [discriminate|]. destruct ds; discriminate.
 Qed.
 
@@ -559,8 +559,9 @@ Proof.
 Qed.
 
 (* the same for tuples printed with %d *)
+(* the bound is no longer needed (kept so that the statements that use it stay as they were) *)
 Lemma dec_token n : (n < two63)%N -> digit_token (dec n).
-Proof. intros H. split; [apply dec_digits|rewrite dec_val; exact H]. Qed.
+Proof. intros _. apply dec_digits. Qed.
 
 Lemma map_dec_val t : map digits_val (map dec t) = t.
 Proof. induction t as [|n t IH]; simpl; [reflexivity|]. rewrite dec_val, IH. reflexivity. Qed.
